@@ -213,17 +213,28 @@ def lean_array(name, ty, vals, per=8, width=10):
 
 
 def generate():
+    """Bee2V/Gen/C01Tables.lean: the substitution tables of belt_block.c"""
     pp = preprocess("src/crypto/belt/belt_block.c")
     H = table(pp, "octet", "H", 0xFF)
     T = {r: table(pp, "u32", "H%d" % r, 0xFFFFFFFF) for r in (5, 13, 21, 29)}
-    ppf = preprocess("src/crypto/belt/belt_fmt.c")
-    special, m65, consts = fmt_consts(ppf)
-    out = ["/- GENERATED by xlate/x_c01_tables.py from src/crypto/belt/belt_block.c and belt_fmt.c -- do not edit.",
+    out = ["/- GENERATED by xlate/x_c01_tables.py from src/crypto/belt/belt_block.c -- do not edit.",
            "   Regenerated from /repo's working tree by every `./check C01`. -/",
            "namespace Bee2V.Gen.C01", ""]
     out.append(lean_array("H", "UInt8", H, 16, 4))
     for r in (5, 13, 21, 29):
         out.append(lean_array("H%d" % r, "UInt32", T[r], 8, 10))
+    out.append("end Bee2V.Gen.C01")
+    return "\n".join(out) + "\n"
+
+
+def generate_fmt():
+    """Bee2V/Gen/C01Fmt.lean: the constants of beltFMTCalcB (a separate module, so that the kernel-checked rows of the
+    block-count table depend on these constants only and not on the substitution tables)"""
+    ppf = preprocess("src/crypto/belt/belt_fmt.c")
+    special, m65, consts = fmt_consts(ppf)
+    out = ["/- GENERATED by xlate/x_c01_tables.py from src/crypto/belt/belt_fmt.c -- do not edit.",
+           "   Regenerated from /repo's working tree by every `./check C01`. -/",
+           "namespace Bee2V.Gen.C01", ""]
     out.append("/-- `if (mod == M && count == C) return B;` lines of beltFMTCalcB, in source order -/")
     out.append("def fmtSpecial : List (Nat × Nat × Nat) := [%s]\n" % ", ".join("(%d, %d, %d)" % s for s in special))
     out.append("/-- `if (mod == 65536) return (a * count + b) / c;` -/")
@@ -240,3 +251,4 @@ def generate():
 
 if __name__ == "__main__":
     print(generate())
+    print(generate_fmt())
